@@ -36,11 +36,11 @@ func (x *cbx) rawDigester() {
 		key  hx.TV
 	}
 	classes := []keyClass{
-		{"single-resident", tvs(9, 8)},   // present, alone under its first-level digest
-		{"meets-resident", tvs(9, 9)},    // absent, shares the first-level digest of the single resident key 8
-		{"group-member", tvs(9, 104)},    // present, inside the group
+		{"single-resident", tvs(9, 8)},    // present, alone under its first-level digest
+		{"meets-resident", tvs(9, 9)},     // absent, shares the first-level digest of the single resident key 8
+		{"group-member", tvs(9, 104)},     // present, inside the group
 		{"new-group-member", tvs(9, 131)}, // absent, belongs into the group
-		{"absent", tvs(9, 71)},           // absent, first-level digest unused
+		{"absent", tvs(9, 71)},            // absent, first-level digest unused
 	}
 	droppedSamples := map[string]bool{}
 	for _, kind := range mapKinds {
